@@ -110,9 +110,26 @@ func classify(ops []Op) map[string]bool {
 	deleted := map[string]bool{}
 	sinceAdmin := 0
 	afterSnapshot := false
+	handed := map[string]int{} // approximate number of internal ids handed out per index (decides the parallel batch path)
+	efc := map[string]int{}
+	droppedOnce := map[string]bool{} // index name -> it was dropped (value: a snapshot had been taken before the drop)
 	for _, op := range ops {
 		key := op.Idx + "/" + op.ID
 		switch op.K {
+		case KCreate:
+			if _, ok := efc[op.Idx]; !ok && op.Cfg != nil && op.Why == "" {
+				if snap, was := droppedOnce[op.Idx]; was {
+					l["re-create-of-dropped-index"] = true
+					if snap {
+						l["re-create-of-index-dropped-after-snapshot"] = true
+					}
+				}
+				efc[op.Idx] = op.Cfg.EfC
+				if op.Cfg.EfC == 0 {
+					efc[op.Idx] = 200
+				}
+				handed[op.Idx] = 0
+			}
 		case KDel:
 			deleted[key] = true
 			l["has-delete"] = true
@@ -123,6 +140,7 @@ func classify(ops []Op) map[string]bool {
 			if op.Meta == nil {
 				l["add-without-metadata"] = true
 			}
+			handed[op.Idx]++
 			if afterSnapshot {
 				l["write-after-snapshot"] = true
 			}
@@ -130,6 +148,10 @@ func classify(ops []Op) map[string]bool {
 			if len(op.Items) >= 8 {
 				l["batch>=8"] = true
 			}
+			if e, ok := efc[op.Idx]; ok && handed[op.Idx] >= e && len(op.Items) >= 2 {
+				l["batch-on-parallel-path"] = true
+			}
+			handed[op.Idx] += len(op.Items)
 			l["has-batch"] = true
 			if afterSnapshot {
 				l["write-after-snapshot"] = true
@@ -168,6 +190,10 @@ func classify(ops []Op) map[string]bool {
 			l["has-unlink"] = true
 		case KDrop:
 			l["has-drop"] = true
+			if _, ok := efc[op.Idx]; ok {
+				droppedOnce[op.Idx] = afterSnapshot
+			}
+			delete(efc, op.Idx)
 		case KSetMeta, KReinforce:
 			if afterSnapshot {
 				l["write-after-snapshot"] = true
